@@ -99,11 +99,13 @@ def corpus(pid):
     r = np.random.RandomState(12345)
     F10 = np.abs(r.standard_normal((40, 3)))
     F10 = nds_front(F10 / np.sqrt((F10 ** 2).sum(axis=1, keepdims=True)))[:10]
-    F8 = np.column_stack([np.linspace(0, 1, 8) ** 2, 1 - np.linspace(0, 1, 8)])
+    # point 0 is not an extreme, so the read of D[0, -1] falls before the buffer (visible to ASan)
+    F8 = np.array([[0.48841119, 0.76145451], [0.76590786, 0.41338516], [0.87073231, 0.24182525], [0.51841799, 0.73124279],
+                   [0.20671916, 0.95726719], [0.22199317, 0.95071903], [0.61174386, 0.62576945], [0.91861091, 0.156154]])
     out = [{"label": "pcd", "n_remove": 0, "F": W_TIED},            # F2
            {"label": "pcd", "n_remove": 8, "F": F10},               # F3
-           {"label": "mnn", "n_remove": 4, "F": F8},                # F4
-           {"label": "2nn", "n_remove": 4, "F": F8}]
+           {"label": "mnn", "n_remove": 5, "F": F8},                # F4
+           {"label": "2nn", "n_remove": 5, "F": F8}]
     for lab in ("mnn", "2nn", "pcd"):
         for nr in (2, 3, 4):
             out.append({"label": lab, "n_remove": nr, "F": W_LINE, "exact_ties": True})     # F5 ties
@@ -112,6 +114,70 @@ def corpus(pid):
     out.append({"label": "pcd", "n_remove": 0, "F": W_F7})               # F7
     out.append({"label": "pcd", "n_remove": 2, "F": W_F7})
     return out
+
+
+def thorough_extras(pid):
+    """thorough tier of C13: run the witnesses of the known findings F2 / F3 on the *real* compiled kernel in
+    isolated worker processes and report what the binary did (a crash is an exit status, not a dead harness)"""
+    if pid != "C13":
+        return {}
+    cs = corpus(pid)[:3]
+    jobs = [{"kind": "raw", "fn": {"pcd": "c_pcd", "mnn": "c_mnn"}[c["label"]], "n_remove": int(c["n_remove"]), "F": np.array(c["F"], dtype=float)}
+            for c in cs]
+    out = []
+    for name, c, job in zip(("F2", "F3", "F4"), cs, jobs):
+        r = isolate.isolated_map([job], fallback=False, timeout=120)[0]
+        if r is None:
+            what = "no result"
+        elif r[0] == "crash":
+            what = "interpreter killed, exit status %s" % (r[1],)
+        elif r[0] == "ok":
+            v = np.asarray(r[1], dtype=float)
+            what = "returned %d values (%d NaN, %d negative, %d infinite) - undefined behaviour need not crash" % (
+                len(v), int(np.isnan(v).sum()), int((v < 0).sum()), int(np.isinf(v).sum()))
+        else:
+            what = str(r[1])
+        out.append({"finding": name, "call": "%s(F %dx%d, n_remove=%d)" % (job["fn"], len(c["F"]), np.asarray(c["F"]).shape[1], c["n_remove"]),
+                    "binary_outcome": what})
+    extras = {"known_finding_witnesses_on_the_binary": out}
+    # AddressSanitizer build of the working tree's generated C++: the same witnesses, and a sample of generated
+    # 3-objective fronts on which the kernel model's out-of-bounds prediction is compared with ASan's report
+    try:
+        import asan
+        d, note = asan.build()
+        if d is None:
+            extras["asan"] = {"available": False, "reason": note}
+        else:
+            rows = []
+            for name, job in zip(("F2", "F3", "F4"), jobs):
+                r = asan.run_job(d, job)
+                rows.append({"finding": name, "asan_report": r["asan"], "returncode": r["returncode"]})
+            rng = np.random.RandomState(2024)
+            cases = []
+            while len(cases) < 40:
+                F = gen_front(rng, int(rng.randint(5, 20)), 3)
+                if len(F) >= 4:
+                    cases.append({"label": "pcd", "n_remove": int(rng.randint(0, len(F))), "F": F})
+            preds = model_predict(cases)
+            agree = disagree = 0
+            examples = []
+            for c, p in zip(cases, preds):
+                model_oob = bool(p["c_raw"][1])
+                r = asan.run_job(d, {"fn": "c_pcd", "n_remove": c["n_remove"], "F": c["F"]})
+                asan_oob = r["asan"] is not None
+                if model_oob == asan_oob:
+                    agree += 1
+                else:
+                    disagree += 1
+                    if len(examples) < 3:
+                        examples.append({"model_sites": p["c_raw"][1][:2], "asan": r["asan"], "N": len(c["F"]), "n_remove": c["n_remove"]})
+            extras["asan"] = {"available": True, "build": note, "witnesses": rows,
+                              "pcd_fronts_compared": len(cases), "model_and_asan_agree": agree, "disagree": disagree,
+                              "disagreements": examples,
+                              "note": "a model-predicted access one element outside a row but inside the malloc'ed block is invisible to ASan"}
+    except Exception as e:
+        extras["asan"] = {"available": False, "reason": "%s: %s" % (type(e).__name__, e)}
+    return extras
 
 
 def model_predict(cases):
